@@ -51,7 +51,7 @@ def gen_single(rng):
 def gen_apset(rng, name, regex_p=0.0):
     ents = [gen_single(rng) for _ in range(rng.randint(1, 3))]
     if rng.random() < regex_p:
-        ents.insert(rng.randint(0, len(ents)), rx_entry(rng.choice([401, 402, 403, 404])))
+        ents.insert(rng.randint(0, len(ents)), rx_entry(rng.choice([401, 402, 403, 404, 405, 406, 407, 408, 409, 410, 411])))
         if rng.random() < 0.3: ents = [e for e in ents if e[0] == 1]
     return [2, name, ents]
 
@@ -167,6 +167,42 @@ def prefix_cases(rng, n):
                                       [(1, rng.choice([1, 2]), [1]), (0, rng.choice([1, 2]), [1])]) + routes))
     return out
 
+def prefix_merge_cases(rng, n):
+    """prefix sets built by several add_defined_set calls (merge path) and partial deletes, with 0.0.0.0/0 and ::/0
+    entries given, restated or omitted in each call; evaluated on routes of both families"""
+    out = []
+    Z4 = lambda: [[ip4(0, 0, 0, 0), 0], *rng.choice([(0, 32), (8, 24), (16, 16), (24, 32), (0, 0)])]
+    Z6 = lambda: [[ip6(0), 0], *rng.choice([(0, 128), (16, 48), (20, 20), (32, 64), (0, 0)])]
+    def piece():
+        e = []
+        if rng.random() < 0.5: e.append(Z4())
+        if rng.random() < 0.4: e.append(Z6())
+        for _ in range(rng.choice([0, 1, 1, 2])):
+            if rng.random() < 0.7:
+                (a, m) = rng.choice(P4[:7]); lo, hi = rng_range(rng, m, 32)
+            else:
+                (a, m) = rng.choice(P6[:3]); lo, hi = rng_range(rng, m, 128)
+            e.append([[a, m], lo, hi])
+        rng.shuffle(e)
+        return e
+    routes4 = R4 + [n4(172, 16, 0, 0, 16), n4(8, 0, 0, 0, 8), n4(10, 1, 2, 0, 20)]
+    routes6 = R6 + [n6(0, 20), n6(0, 16), n6(1 << 100, 24), [6, 0x20010db8 << 32, 0, 20], [6, 0x3ffe << 48, 0, 16], [6, 0x3ffe << 48, 0, 48]]
+    for _ in range(n):
+        first = piece() or [Z4()]
+        if rng.random() < 0.6 and not any(e[0][0] == ip4(0, 0, 0, 0) and e[0][1] == 0 for e in first): first.append(Z4())
+        ops = [[1, 0, [0, 1, first]]]
+        for _ in range(rng.choice([1, 1, 2, 3])):
+            x = rng.random()
+            if x < 0.7: ops.append([1, 0, [0, 1, piece()]])                       # merge
+            elif x < 0.85: ops.append([2, 0, [0, 1, rng.sample(first, min(len(first), rng.randint(1, 2)))]])   # partial delete
+            else: ops.append([1, 1, [0, 1, piece()]])                             # replace
+            if rng.random() < 0.3: ops.append([10])
+        opt = rng.choice([0, 0, 2])
+        ops += [[3, 1, [[0, 1, opt]], [2], NOACT()], [5, 1, [1]], [7, 0, 1, 1, [1]], [7, 0, 0, 1, [1]]]
+        ops += [ev(r, [], d=rng.randrange(2)) for r in rng.sample(routes4, 5) + rng.sample(routes6, 6)]
+        out.append(mk('prefix_merge', ops))
+    return out
+
 def aspath_cases(rng, n, regex_p=0.0, cls='aspath'):
     out = []
     for _ in range(n):
@@ -205,7 +241,7 @@ def chain_cases(rng, n):
     """several policies and statements: dispositions, accumulation of actions, conditions that see earlier actions"""
     out = []
     for _ in range(n):
-        sets = [gen_pset(rng, 1), gen_nset(rng, 1), gen_apset(rng, 1), gen_cset(rng, 1), gen_eset(rng, 1), gen_lset(rng, 1)]
+        sets = [gen_pset(rng, 1), gen_nset(rng, 1), gen_apset(rng, 1, 0.4), gen_cset(rng, 1), gen_eset(rng, 1), gen_lset(rng, 1)]
         nst = rng.randint(2, 5)
         stmts = []
         for i in range(1, nst + 1):
@@ -356,7 +392,9 @@ def crud_directed(rng):
         st = [(1, [[kind, 1, 0 if kind < 2 else rng.randrange(3)]], [2], NOACT())]
         ops = setup(sets, st, [(1, [1])], [(1, 1, [1]), (0, 2, [1])])
         probe = gen_route(rng)
+        bad = [[[0], 1, 2], [0], [2], [3], [3], [3]][kind]
         attack = [[2, 1, SETGEN[kind](rng, 1)], [2, 0, sets[kind]], [1, 1, SETGEN[kind](rng, 1)], [1, 0, SETGEN[kind](rng, 1)],
+                  [1, 1, [kind, 1, []]], [1, 1, [kind, 1, [bad]]],      # replace whose add would fail: must not lose the in-use set
                   [4, 1, 1, [], [], NOACT()], [4, 1, 0, [[kind, 1, 0]], [], NOACT()], [3, 1, [[6, 0, 1]], [], NOACT()],
                   [6, 1, 0, 1, []], [6, 1, 0, 0, [1]], [5, 1, [1]], [6, 1, 1, 1, []]]
         rng.shuffle(attack)
@@ -365,6 +403,12 @@ def crud_directed(rng):
         ops += [[10], [8, 1, [1], 0], [8, 0, [], 1], probe, [6, 1, 1, 0, [1]], [4, 1, 0, [[kind, 1, 0]], [], NOACT()], [2, 0, sets[kind]],
                 [1, 1, SETGEN[kind](rng, 1)], [2, 1, sets[kind]], [10], [6, 1, 0, 1, []], [4, 1, 1, [], [], NOACT()]]
         out.append(mk('crud_directed', ops))
+    # replace_defined_set removes first and adds second: an UNUSED set is lost when the add fails (code 1), an in-use one is refused
+    for kind in range(6):
+        bad = [[[0], 1, 2], [0], [2], [3], [3], [3]][kind]
+        st = SETGEN[kind](rng, 1)
+        out.append(mk('crud_replace', [[1, 0, st], [10], [1, 1, [kind, 1, [bad]]], [10], [1, 0, st], [1, 1, [kind, 1, []]], [10],
+                                       [1, 0, st], [3, 1, [[kind, 1, 0]], [2], NOACT()], [1, 1, [kind, 1, [bad]]], [1, 1, [kind, 1, []]], [10]]))
     # host bits inside the boundary nibble: treebitmap refuses the key
     out.append(mk('crud_hostbits', [[1, 0, [0, 1, [[[ip4(10, 0, 0, 0), 6], 8, 32]]]]]))
     out.append(mk('crud_hostbits', [[1, 0, [0, 1, [[[ip4(10, 0, 0, 0), 8], 8, 32]]]], [1, 0, [0, 1, [[[ip4(10, 32, 0, 0), 10], 8, 32]]]]]))
@@ -376,19 +420,113 @@ def crud_directed(rng):
                                 [1, 0, [0, 1, []]], [1, 0, [0, 2, []]], [1, 1, [0, 1, []]]]))
     return out
 
+VRPS = [[ip4(10, 0, 0, 0), 8, 8, 65002], [ip4(10, 1, 0, 0), 16, 24, 65001], [ip4(10, 1, 2, 0), 24, 24, 65001], [ip4(10, 1, 2, 0), 24, 32, 65003],
+        [ip4(10, 2, 0, 0), 16, 16, 0], [ip4(192, 168, 0, 0), 16, 24, 65002], [ip6(V6BASE), 32, 48, 65001], [ip6(V6BASE | (1 << 80)), 48, 64, 65002]]
+
+def with_rpki(rng, ops, vrps=None):
+    """install an RPKI table first and probe validate for every (prefix, origin AS) the evaluations can ask about"""
+    vrps = vrps if vrps is not None else rng.sample(VRPS, rng.randint(1, len(VRPS)))
+    nets, asns = [], {0}
+    for op in ops:
+        if op[0] == 9:
+            if op[3] not in nets: nets.append(op[3])
+            asns.add(op[2][4])
+            for a in op[4]:
+                d = attr_in(a)
+                if d is not None and d['code'] == 2 and d['k'] != 0:
+                    for _, l in iter_segs(d['data']): asns.update(l)
+        if op[0] == 3 and op[4][4]: asns.add(op[4][4][0][0])
+    probes = [[12, n, a] for n in nets for a in sorted(asns)]
+    return [[11, vrps]] + ops + probes
+
+def rpki_cases(rng, n):
+    out = []
+    for _ in range(n):
+        stmts = [(1, [[8, rng.randrange(3)]] + ([gen_valcond(rng)] if rng.random() < 0.3 else []), rng.choice([[], [1], [2]]),
+                  gen_actions(rng, 0.25, allow_nh=False)),
+                 (2, [[8, rng.randrange(3)]], [rng.choice([1, 2])], NOACT())]
+        ops = setup([], stmts, [(1, [1, 2])], [(1, rng.choice([1, 2]), [1]), (0, rng.choice([1, 2]), [1])])
+        routes = []
+        for _ in range(rng.randint(4, 8)):
+            x = rng.random()
+            attrs = [] if x < 0.15 else [aspath_attr(gen_path(rng))] + ([[0, 4, 5]] if x > 0.8 else [])
+            if x > 0.93: attrs = [[1, 2, rng.choice([[2, 1, 0, 0], [2], [2, 2, 0, 0, 253, 233], [1, 1, 0, 0, 253, 233, 2, 1, 0, 0, 253, 234, 2, 9]])]]
+            routes.append(ev(rng.choice(R4[:8] + R6[:3]), attrs, d=rng.randrange(2), src=rng.choice([SRC_E, SRC_I, SRC_L])))
+        body = ops + routes
+        # a third of the cases evaluate once before the table is installed (rpki = None)
+        if rng.random() < 0.3:
+            out.append(mk('rpki', [routes[0]] + with_rpki(rng, body), profile=rng.choice(['debug', 'release'])))
+        else:
+            out.append(mk('rpki', with_rpki(rng, body), profile=rng.choice(['debug', 'debug', 'release'])))
+    return out
+
+# ---------------------------------------------------------------- Global level: per-peer assignments
+def gmk(cls, ops): return {'cls': cls, 'kind': 'global', 'profile': 'debug', 'ops': ops + [[24]]}
+
+def peer_route(rng):
+    r = gen_route(rng, d=1)
+    return r[2:]
+
+def global_cases(rng, n):
+    out = []
+    for _ in range(n):
+        ops = []
+        # a small world: sets of three kinds, three statements, two policies
+        kinds = rng.sample(range(6), 3)
+        sets = [SETGEN[k](rng, 1) for k in kinds]
+        stmts = [(i, [[rng.choice(kinds), 1, rng.choice([0, 2])]] if rng.random() < 0.7 else [], rng.choice([[], [1], [2]]),
+                  gen_actions(rng, 0.15)) for i in (1, 2, 3)]
+        ops += setup(sets, stmts, [(1, [1, 2]), (2, [3] + ([1] if rng.random() < 0.3 else []))], [])
+        ops += [[20, 4, []], [20, 5, rng.choice([[], [[rng.choice([1, 2]), [rng.choice([1, 2, 3])]]]])]]
+        probes = [peer_route(rng) for _ in range(2)]
+        for _ in range(rng.randint(8, 20)):
+            x = rng.random()
+            peer = rng.choice([4, 5, 5, 7])
+            if x < 0.2: ops.append([21, peer, rng.choice([1, 1, 1, 0]), rng.choice([1, 2]), [rng.choice([1, 2, 3]) for _ in range(rng.choice([1, 1, 2]))]])
+            elif x < 0.3: ops.append([22, peer, rng.choice([1, 1, 0]), [rng.choice([1, 2])], int(rng.random() < 0.3)])
+            elif x < 0.4: ops.append([20, rng.choice([4, 6]), rng.choice([[], [[1, [rng.choice([1, 2, 3])]]]])])
+            elif x < 0.5: ops.append([6, rng.choice([1, 2]), int(rng.random() < 0.5), int(rng.random() < 0.5), [rng.choice([1, 2, 3])]])
+            elif x < 0.6: ops.append([5, rng.choice([1, 2, 3]), [rng.choice([1, 2, 3])]])
+            elif x < 0.68: ops.append([4, rng.choice([1, 2, 3]), int(rng.random() < 0.5), [], [], NOACT()])
+            elif x < 0.76: ops.append([3, rng.choice([1, 2, 3]), [gen_valcond(rng)], [], NOACT()])
+            elif x < 0.84:
+                k = rng.choice(kinds)
+                ops.append(rng.choice([[2, 1, SETGEN[k](rng, 1)], [1, 1, SETGEN[k](rng, 1)], [1, 0, SETGEN[k](rng, 1)]]))
+            elif x < 0.92: ops.append([7, int(rng.random() < 0.3), rng.randrange(2), rng.choice([1, 2]), [rng.choice([1, 2])]])
+            else: ops.append([8, rng.randrange(2), [rng.choice([1, 2])], int(rng.random() < 0.4)])
+            if rng.random() < 0.6: ops.append([23, rng.choice([4, 5, 7])] + rng.choice(probes))
+            if rng.random() < 0.1: ops.append([24])
+        out.append(gmk('global', ops))
+    # directed: a policy referenced ONLY by a peer's override must be protected, with everything below it
+    for kind in range(6):
+        st = SETGEN[kind](rng, 1)
+        ops = setup([st], [(1, [[kind, 1, 0]], [2], NOACT())], [(1, [1])], [])
+        ops += [[20, 4, []], [21, 4, 1, 1, [1]]]
+        r = peer_route(rng)
+        attack = [[6, 1, 0, 1, []], [6, 1, 0, 0, [1]], [6, 1, 1, 1, []], [5, 1, [1]], [4, 1, 1, [], [], NOACT()], [3, 1, [[6, 0, 1]], [], NOACT()],
+                  [2, 1, st], [2, 0, st], [1, 1, SETGEN[kind](rng, 1)], [1, 0, SETGEN[kind](rng, 1)]]
+        rng.shuffle(attack)
+        for a in attack: ops += [a, [23, 4] + r]
+        ops += [[24], [22, 4, 1, [1], 0], [23, 4] + r, [6, 1, 0, 1, []], [24]]
+        out.append(gmk('global_directed', ops))
+    return out
+
 def gen_cases(rng, tier):
     q = tier == 'quick'
     cases = []
-    cases += prefix_cases(rng, 150 if q else 1500)
-    cases += aspath_cases(rng, 150 if q else 1500)
-    cases += aspath_cases(rng, 12 if q else 100, regex_p=1.0, cls='aspath_regex')
-    cases += community_cases(rng, 120 if q else 1200)
-    cases += chain_cases(rng, 250 if q else 2400)
+    cases += prefix_cases(rng, 150 if q else 800)
+    cases += prefix_merge_cases(rng, 120 if q else 600)
+    cases += aspath_cases(rng, 150 if q else 800)
+    cases += aspath_cases(rng, 80 if q else 400, regex_p=1.0, cls='aspath_regex')
+    cases += community_cases(rng, 120 if q else 700)
+    cases += chain_cases(rng, 250 if q else 1500)
     cases += length_cases(rng, 6 if q else 60)
     cases += api_cases(rng, 30 if q else 400)
     cases += med_cases(rng)
+    cases += rpki_cases(rng, 60 if q else 300)
+    cases += global_cases(rng, 150 if q else 800)
     cases += crud_directed(rng)
     if not q:
         for _ in range(20): cases += crud_directed(rng)[:6]
-    cases += crud_cases(rng, 400 if q else 3500, 14 if q else 30)
+    cases += crud_cases(rng, 400 if q else 2200, 14 if q else 30)
     return cases
